@@ -622,6 +622,42 @@ Section Seq.
       end
     end.
 
+  (* ================================================================== pre-repair variants *)
+  (* the error paths as they were before the fix: commits (DESIGN section 8 D13, D14, D15); kept so
+     that Properties_C04.v can state `..._pre_repair_refuted` next to the positive theorems *)
+  (* D13 (cab8f5d): Array_Push_At counted and reserved first, then checked against the new length *)
+  Definition a_push_at_old (a : array) (k : Z) (v : E) : array * out :=
+    let a1 := a_reserve_more (mkA (cells a) (S (nitems a)) (nslots a)) in
+    let i := norm (nitems a1) k in
+    if oob (nitems a1) i then (a1, ORaise IndexError) else
+    let n := Z.to_nat i in
+    match memmove (cells a1) (n + 1) n (nitems a1 - 1 - n) with
+    | Some cs =>
+      match set_at cs n (Some v) with
+      | Some cs' => (mkA cs' (nitems a1) (nslots a1), OUnit)
+      | None => (a, OCrash)
+      end
+    | None => (a, OCrash)
+    end.
+  (* D14 (9c281b5): Tuple_Pop_At moved the elements before the allocation-class check *)
+  Definition t_pop_at_old (t : tuple) (n : nat) (k : Z) : tuple * out :=
+    let i := norm n k in
+    if oob n i then (t, ORaise IndexError) else
+    let p := Z.to_nat i in
+    match memmove (titems t) p (p + 1) (n - p) with
+    | Some its =>
+      if negb (theap t) then (mkTu its (theap t), ORaise ValueError)
+      else (mkTu (realloc TJunk its n) (theap t), OUnit)
+    | None => (t, OCrash)
+    end.
+  (* D15 (898595c): Tuple_Rem fell off the end of the loop silently *)
+  Definition t_rem_old (t : tuple) (n : nat) (v : E) : tuple * out :=
+    match t_find (titems t) 0 v with
+    | Some (Some i) => t_pop_at t n (Z.of_nat i)
+    | Some None => (t, OUnit)
+    | None => (t, OCrash)
+    end.
+
   (* ================================================================== specification *)
   (* the abstract sequence is a `list E` *)
   Definition le (x y : E) : bool := negb (ltb y x).
